@@ -385,6 +385,10 @@ func sliceOrigins(w *World, v ssa.Value, seen map[ssa.Value]bool, out map[string
 			out["fresh"] = true // checked on its own
 			return
 		}
+		if n := w.calleeName(&x.Call); strings.HasPrefix(n, "slices.Clone") || n == "bytes.Clone" {
+			out["fresh"] = true // the standard library's copying helpers
+			return
+		}
 	}
 	out[w.path(v)] = true
 }
